@@ -5,7 +5,7 @@ Import ListNotations.
 Require Import EV.model.Frame EV.proofs.FrameP EV.model.Chan EV.proofs.ChanP EV.proofs.ChanLossP EV.gen.Facts.
 
 Definition chan_cfg : ccfg := {| setcb_atomic := chan_setcb_atomic && chan_receiver_locked |}.
-Lemma C04_cfg_ok : cfg_ok chan_cfg /\ loss_reads_raise_eof_with_text = true /\ loss_epilogue_ok = true /\ loss_finished_receiving_ok = true /\
+Lemma C04_cfg_ok : cfg_ok chan_cfg /\ loss_reads_raise_eof_with_text = true /\ loss_socket_reset_is_eof = true /\ loss_epilogue_ok = true /\ loss_finished_receiving_ok = true /\
   loss_send_raises_oserror = true /\ read_loops_exact = true /\ from_io_exact = true /\ chan_receive_shape_ok = true /\ chan_local_close_order_ok = true /\ chan_setcb_handles_concurrent_close = true.
 Proof. repeat split; reflexivity. Qed.
 Definition C04_C : cfg_ok chan_cfg := proj1 C04_cfg_ok.
